@@ -513,7 +513,7 @@ CLS_SYNTAX, CLS_SYMBOL, CLS_VALUE, CLS_FILE = 'syntax', 'symbol', 'value', 'file
 
 BAD_INTS = ['x', '1.5', '1+', '"1 +"', "'a b'", '1/0', '1//0', 'one', '0x', '1e3', '"[1]"', "'\"1\"'", '2**0.5', '1,2']
 BAD_TIMEOUTS = BAD_INTS + ['-1', '-5', '"-1"', '0-1']
-BAD_REGEXES = ["'a('", "'*a'", "'[a'", "'(?P<'", "'a)'", "'(?P<n>a)(?P<n>b)'", "'a{2,1}'", "'\\'", "'(?z)'", "'[b-a]'"]
+BAD_REGEXES = ["'a('", "'*a'", "'[a'", "'(?P<'", "'a)'", "'(?P<n>a)(?P<n>b)'", "'a{2,1}'", "'\\'", "'(?z)'", "'[b-a]'", "'a{99999999999}'", "'x{1,4294967296}'"]
 BAD_REPLS = ["'\\g<'", "'\\g<nosuch>'", "'\\99'", "'\\g<1'", "'x\\g<>'"]
 BAD_RANGES = ['x', '1:2:3', '1.5', 'a:b', '1:x', '"1 2"', '::']
 BAD_ENUMS = ['bogus', 'no-such-word', 'X', '-bogus']
